@@ -68,6 +68,11 @@ func init() {
 			ref := x.allocRef(st)
 			x.storeObject(st, ref, inner, x.ssValue(st, store.S, key.S, inner))
 			val = Value{K: KRef, T: et, S: ref}
+		} else if inner != nil && x.tc.kindOf(inner) == KOpaque {
+			// **big.Int and the like: a fresh object holding the stored value
+			ref := x.allocRef(st)
+			val = Value{K: KRef, T: et, S: ref}
+			x.store(st, val, x.ssValue(st, store.S, key.S, inner), pos)
 		} else {
 			val = x.ssValue(st, store.S, key.S, et)
 		}
@@ -138,6 +143,18 @@ func init() {
 	models["(time.Time).IsZero"] = tm(func(x *Exec, st *State, a []Value, fn *ssa.Function) Value {
 		return boolV(mkEq(a[0].S, "0"))
 	})
+	// tickers and timers: the constructors return a fresh non-nil object; Stop touches only it
+	for _, k := range []string{"time.NewTicker", "time.NewTimer"} {
+		models[k] = func(x *Exec, st *State, fr *Frame, fn *ssa.Function, args []Value, pos token.Pos) []Outcome {
+			return single(st, Value{K: KRef, T: fn.Signature.Results().At(0).Type(), S: x.allocRef(st)})
+		}
+	}
+	models["(*time.Ticker).Stop"] = func(x *Exec, st *State, fr *Frame, fn *ssa.Function, args []Value, pos token.Pos) []Outcome {
+		return single(st)
+	}
+	models["(*time.Timer).Stop"] = func(x *Exec, st *State, fr *Frame, fn *ssa.Function, args []Value, pos token.Pos) []Outcome {
+		return single(st, x.symbolic(st, types.Typ[types.Bool], "timer.stop"))
+	}
 	// Duration.String / ParseDuration: inverse pair (ledger: round trip is the identity)
 	models["(time.Duration).String"] = tm(func(x *Exec, st *State, a []Value, fn *ssa.Function) Value {
 		x.needDurStr()
